@@ -166,6 +166,10 @@ PROPS["C02"] = dict(
     note=BOUNDED_NOTE)
 PROPS["C08"] = dict(
     level="exploration", contracts=[], legs=[g1("meta", PY312, "py312"), g1("meta", PY311, "py311"), corpus("meta", PY312, "py312"),
+                                             dict(name="c08_targets_py312", cmd="PYTHONPATH={repo} " + PY312 + " legs/c08_targets.py"),
+                                             dict(name="c08_targets_py311", cmd="PYTHONPATH={repo} " + PY311 + " legs/c08_targets.py"),
+                                             dict(name="c08_targets_py310", cmd="PYTHONPATH={repo}:{verif}/.vendor " + PY310 + " legs/c08_targets.py", thorough_only=True),
+                                             dict(name="c08_targets_py39", cmd="PYTHONPATH={repo}:{verif}/.vendor " + PY39 + " legs/c08_targets.py", thorough_only=True),
                                              corpus("meta", PY311, "py311", True), g1("meta", PY310, "py310", thorough_only=True, vendor=True),
                                              g1("meta", PY39, "py39", thorough_only=True, vendor=True)],
     technique=BOUNDED_TECH,
@@ -183,7 +187,8 @@ PROPS["C20"] = dict(
           "trickery failures and the set_trickery_enabled mode switch are proved deductively.",
     note=BOUNDED_NOTE + "; what gc.get_referents reports is interpreter behaviour")
 PROPS["C06"] = dict(
-    level="exploration", contracts=[], legs=[g1("twin", PY312, "py312"), g1("twin", PY311, "py311", thorough_only=True)],
+    level="exploration", contracts=[], static=["contracts.c06_effects"],
+    legs=[g1("twin", PY312, "py312"), g1("twin", PY311, "py311", thorough_only=True)],
     technique=BOUNDED_TECH + " (twin runs)",
     claim="Bounded stand-in: every program of the family run twice, un-observed and with two extractions at every suspension point: identical "
           "traces, the two extractions compare equal, managers are collectable once results are dropped. Reference-count balance of the "
